@@ -10,6 +10,7 @@ import (
 	"context"
 	"encoding/binary"
 	"fmt"
+	"hash/fnv"
 	"time"
 
 	"go.uber.org/zap"
@@ -62,6 +63,19 @@ type Side struct {
 	Hellos   []time.Duration // times at which this side emitted an InitHello
 	pumpStop context.CancelFunc
 	firstKey []byte
+	// LastHS is the counter of the last handshake message this side emitted (0 InitHello,
+	// 1 RespHello, 2 InitDone, 3 RespDone), -1 once a RespDone came in: 0..2 = a handshake
+	// of this side is in progress
+	LastHS int
+	// HSOut logs every handshake message this side emitted (any generation of its channel)
+	HSOut []HSEmit
+}
+
+type HSEmit struct {
+	At      time.Duration
+	Counter int
+	Sum     uint64
+	Gen     int
 }
 
 type SendRec struct {
@@ -138,7 +152,7 @@ func (w *World) DrawTimers() {
 
 func (w *World) NewSide(name string, keyIdx int, accept func(*x509.PublicKey) bool) *Side {
 	priv, pub := key(name, keyIdx)
-	s := &Side{W: w, Name: name, Priv: priv, Pub: pub, Accept: accept, Sent: map[string]bool{}, Tried: map[string]bool{}, Got: map[string]int{}, GotGen: map[string]int{}}
+	s := &Side{W: w, Name: name, Priv: priv, Pub: pub, Accept: accept, Sent: map[string]bool{}, Tried: map[string]bool{}, Got: map[string]int{}, GotGen: map[string]int{}, LastHS: -1}
 	s.Node = w.Net.NewNode()
 	w.Sides = append(w.Sides, s)
 	return s
@@ -169,6 +183,12 @@ func (s *Side) Start() {
 				return
 			}
 			s.Emitted++
+			if len(x) >= 4 && binary.BigEndian.Uint32(x[:4]) < 4 {
+				s.LastHS = int(binary.BigEndian.Uint32(x[:4]))
+				h := fnv.New64a()
+				h.Write(x)
+				s.HSOut = append(s.HSOut, HSEmit{At: w.Sim.Now(), Counter: s.LastHS, Sum: h.Sum64(), Gen: myGen})
+			}
 			w.Wire = append(w.Wire, append([]byte{}, x...))
 			if p2pke.IsInitHello(x) {
 				s.Hellos = append(s.Hellos, w.Sim.Now())
@@ -186,6 +206,7 @@ func (s *Side) Start() {
 	if s.Ch != nil {
 		s.Gen++
 		s.firstKey = nil
+		s.LastHS = -1
 	}
 	s.Ch = newCh
 	ctx, cf := context.WithCancel(context.Background())
@@ -196,6 +217,9 @@ func (s *Side) Start() {
 			err := s.Node.Receive(ctx, func(m p2p.Message[simnet.Addr]) {
 				in := append([]byte{}, m.Payload...)
 				out, err := ch.Deliver(nil, in)
+				if len(in) >= 4 && binary.BigEndian.Uint32(in[:4]) == 3 && err == nil && gen == s.Gen {
+					s.LastHS = -1
+				}
 				if w.Sim.LogOn && len(in) >= 4 {
 					w.Sim.Logf("WIRE %s got counter=%d id=%x -> app=%v err=%v", s.Name, binary.BigEndian.Uint32(in[:4]), in[len(in)-4:], out != nil, err)
 				}
